@@ -54,6 +54,30 @@ def main():
     if not ok:
         print("baseline build failed\n", out); sys.exit(2)
     for m in muts:
+        if "patch" in m:
+            sh(f"git -C {REPO} checkout -- . && git -C {REPO} clean -fdq")
+            r = sh(f"git -C {REPO} apply {m['patch']}")
+            res = {"id": m["id"], "property": m["property"], "desc": m.get("desc", ""), "patch": m["patch"]}
+            if r.returncode != 0:
+                res["status"] = "patch-does-not-apply"; res["log"] = r.stderr[-400:]
+            else:
+                t0 = time.time(); ok, out = build(); res["build_s"] = round(time.time() - t0, 1)
+                if not ok:
+                    res["status"] = "does-not-compile"; res["log"] = out[-600:]
+                else:
+                    checks = m["property"] if isinstance(m["property"], list) else [m["property"]]
+                    res["runs"] = {}
+                    for c in checks:
+                        for seed in m.get("seeds", [0]):
+                            shutil.rmtree(f"{ROOT}/replays", ignore_errors=True)
+                            r = sh(f"VERIF_ROOT={ROOT} VERIF_SEED={seed} {SCR}/target/release/vcheck {c} quick", timeout=1800)
+                            first = [l for l in r.stderr.splitlines() if "FAIL" in l or l.strip().startswith("[")]
+                            res["runs"][f"{c}@{seed}"] = {"exit": r.returncode, "first": (first or [""])[0][:300]}
+                    res["status"] = "detected" if any(v["exit"] == 1 for v in res["runs"].values()) else "MISSED"
+            sh(f"git -C {REPO} checkout -- . && git -C {REPO} clean -fdq")
+            print(json.dumps(res)); sys.stdout.flush()
+            open("/verif/mutants/results.jsonl", "a").write(json.dumps(res) + "\n")
+            continue
         path = f"{REPO}/{m['file']}"
         src = open(path).read()
         if src.count(m["find"]) != 1:
